@@ -26,6 +26,16 @@ def pad_head(first, fixed, where, target, marker):
         parts = first.split(' ')
         parts[1] = parts[1] + '?' + 'q' * max(0, need - 1)
         first = ' '.join(parts)
+    elif where == 'folded':
+        fields.append(('X-Mark', marker))
+        need = target - size(first, fields)
+        over = len('X-Folded') + 4
+        unit = '\r\n' + ' ' * 58 + 'w'            # 61 raw octets that unfold to " w"
+        body = 'v'
+        while len(body) + len(unit) <= max(1, need - over):
+            body += unit
+        body += 'z' * max(0, need - over - len(body))
+        fields.append(('X-Folded', body))
     elif where == 'onefield':
         over = len('X-Big') + 4
         fields.append(('X-Big', marker + 'a' * max(0, need - over - len(marker))))
@@ -137,5 +147,5 @@ def run(ctx):
     ctx.cov['by_status'] = {str(s): sum(1 for o in out if o['ev'][-1]['status'] == s) for s in sorted({o['ev'][-1]['status'] for o in out})}
     for o in out[:2]:
         ctx.sample(o)
-    ctx.cov['rule'] = ('classes = LimitsScen.tla (direction x limit 4 KiB/64 KiB x size relative to the limit x where the excess sits (first line, one field, many fields, split between line and fields) x arrival pattern); histories validated '
+    ctx.cov['rule'] = ('classes = LimitsScen.tla (direction x limit 4 KiB/64 KiB x size relative to the limit x where the excess sits (first line, one field, many fields, split between line and fields, obs-folds with long blank runs) x arrival pattern); histories validated '
                        'by TLC against Limits.tla. Non-trivial = distinct class.')
